@@ -343,7 +343,16 @@ pub fn gen(rng: &mut Rng, thorough: bool, out: &mut Sink) {
                     out.push(format!("IMPLEQ rebuilt-behaves-alike gen{} :: OK", k));
                     out.count("rebuilt_tokenizers_compared");
                 }
-                Some(Some(Err(why))) => out.push(format!("IMPLEQ rebuilt-behaves-alike gen{} {} :: DIFF {}", k, hex(&bytes), why)),
+                Some(Some(Err(why))) => {
+                    // F28 (known finding): a vocabulary that lists one id twice decodes that id to whichever entry is
+                    // listed last, and the export re-orders the entries. Labelled apart so that the finding is matched by
+                    // exactly this shape (decoding, id listed twice) and every other difference is still a violation.
+                    let mut ids: Vec<u32> = def.model.vocab().iter().map(|t| t.id).collect();
+                    ids.sort_unstable();
+                    let twice = ids.windows(2).any(|w| w[0] == w[1]);
+                    let label = if twice && why.starts_with("decoding differs") { "rebuilt-behaves-alike-id-listed-twice-decoding" } else { "rebuilt-behaves-alike" };
+                    out.push(format!("IMPLEQ {} gen{} {} :: DIFF {}", label, k, hex(&bytes), why))
+                }
                 Some(None) => out.count("rebuilt_defs_failed_init"),
                 None => out.push(format!("IMPLEQ rebuilt-behaves-alike gen{} {} :: PANIC", k, hex(&bytes))),
             }
